@@ -873,6 +873,35 @@ func main() {
 				redisemu.VerifSetPointHook(nil)
 			}
 
+			// ---- an unblocked client stops competing: the unblock and a push in one transaction — the block
+			// ends with a null reply and the element stays in the list
+			if failures == 0 {
+				do(p, "DEL", "tk", "dst")
+				ch := async(a, mk(tmpl, "tk", "0")...)
+				if waitBlocked(a, time.Second) {
+					time.Sleep(2 * time.Millisecond)
+					do(p, "MULTI")
+					do(p, "CLIENT", "UNBLOCK", fmt.Sprint(a.ID()))
+					do(p, "RPUSH", "tk", "x")
+					er := do(p, "EXEC")
+					ra, done := get(ch, 800*time.Millisecond)
+					left := strings.TrimSpace(do(p, "LLEN", "tk"))
+					steps := []string{"A: " + strings.Join(mk(tmpl, "tk", "0"), " "), "P: MULTI; CLIENT UNBLOCK <A>; RPUSH tk x; EXEC -> " + strings.TrimSpace(strings.ReplaceAll(er, "\r\n", " "))}
+					if !done {
+						fail("unblock-then-push", round, steps, "the unblocked client is still blocked 800 ms later")
+						do(p, "CLIENT", "UNBLOCK", fmt.Sprint(a.ID()))
+						get(ch, time.Second)
+					} else if strings.Contains(ra.reply, "x") || left != ":1" {
+						fail("unblock-then-push", round, steps, fmt.Sprintf("CLIENT UNBLOCK answered 1 and ended the block, yet the client was served the element pushed afterwards (reply %q, LLEN tk %s): an unblocked client must not compete for later pushes", ra.reply, left))
+					}
+					stats["unblock_then_push_checks"]++
+				} else {
+					do(p, "CLIENT", "UNBLOCK", fmt.Sprint(a.ID()))
+					get(ch, time.Second)
+				}
+				do(p, "DEL", "tk", "dst")
+			}
+
 			// ---- inside MULTI blocking commands never block
 			do(a, "MULTI")
 			do(a, mk(tmpl, "tk", "0")...)
